@@ -198,6 +198,9 @@ struct TraceGen {
     first_ttl: u8,
     branches: u8,
     len: u8,
+    /// The target answers the last probe of a round from its own address.
+    reach: bool,
+    target: IpAddr,
 }
 
 impl TraceGen {
@@ -242,9 +245,13 @@ impl TraceGen {
                     ttl: p.ttl,
                     round: p.round,
                     sent: base,
-                    host: hop_addr(ttl, b),
+                    host: if self.reach && i + 1 == n { self.target } else { hop_addr(ttl, b) },
                     received: base + Duration::from_micros(rng.random_range(100..90_000)),
-                    icmp_packet_type: IcmpPacketType::TimeExceeded(trippy_core::verif::IcmpPacketCode(0)),
+                    icmp_packet_type: if self.reach && i + 1 == n {
+                        IcmpPacketType::EchoReply(trippy_core::verif::IcmpPacketCode(0))
+                    } else {
+                        IcmpPacketType::TimeExceeded(trippy_core::verif::IcmpPacketCode(0))
+                    },
                     tos: None,
                     expected_udp_checksum: None,
                     actual_udp_checksum: None,
@@ -456,6 +463,8 @@ pub fn run(seed: u64, n: usize, family: &str, out: &str, stats_path: Option<&str
                 first_ttl,
                 branches: if strat == MultipathStrategy::Classic { 1 } else { rng.random_range(1..4) },
                 len: rng.random_range(0..10),
+                reach: scripts.get(sc).is_none() && rng.random_bool(0.6),
+                target,
             });
         }
         let resolver = trippy_dns::DnsResolver::start(trippy_dns::Config::new(
@@ -583,6 +592,16 @@ pub fn run(seed: u64, n: usize, family: &str, out: &str, stats_path: Option<&str
             CUR_FRAMES.fetch_add(1, std::sync::atomic::Ordering::Relaxed);
             let mut c = c2.borrow_mut();
             let mut ev = frame_event(app, &c.sh.borrow(), &c.last_key);
+            if let Ok(d) = std::env::var("VT_DUMP_FRAME") {
+                // debugging aid: print the captured screen of frame "<scenario index>:<frame number>"
+                let want = format!("{}:{}", CUR_SC.load(std::sync::atomic::Ordering::Relaxed), CUR_FRAMES.load(std::sync::atomic::Ordering::Relaxed));
+                if d == want {
+                    for r in c.sh.borrow().rows() {
+                        eprintln!("|{r}|");
+                    }
+                    eprintln!("{ev}");
+                }
+            }
             ev.as_object_mut().unwrap().insert("default_cols".into(), json!(c.default_cols));
             c.events.push(ev);
             c.cur_trace = app.trace_selected;
@@ -635,7 +654,12 @@ fn frame_event(app: &TuiApp, sh: &Shared, last_key: &str) -> Value {
     // which hops' addresses are visible anywhere on the screen (all flows' hops share the addresses of
     // the default flow)
     let all_hops: Vec<(u8, Vec<IpAddr>)> = st.hops().iter().map(|h| (h.ttl(), h.addrs().copied().collect())).collect();
+    // the address of the target of the displayed trace is shown by the header whatever the privacy level
+    // (finding F13): hops are matched on their other addresses, the target address is reported separately
+    let target_ip = app.trace_info.get(app.trace_selected).map(|t| t.data.target_addr());
+    let target_on_screen = target_ip.is_some_and(|a| text.contains(&a.to_string()));
     let mut found: Vec<u8> = Vec::new();
+    let mut tfound: Vec<u8> = Vec::new();
     let mut resp: Vec<u8> = Vec::new();
     for (ttl, addrs) in &all_hops {
         if *ttl == 0 {
@@ -644,8 +668,14 @@ fn frame_event(app: &TuiApp, sh: &Shared, last_key: &str) -> Value {
         if !addrs.is_empty() {
             resp.push(*ttl);
         }
-        if addrs.iter().any(|a| text.contains(&a.to_string())) {
+        // an address that several hops share (a host reached at different distances as the path changes) is
+        // attributed to none of them: it may be hidden in one row and must be shown in another
+        let unique = |a: &IpAddr| all_hops.iter().filter(|(_, o)| o.contains(a)).count() == 1;
+        if addrs.iter().any(|a| Some(*a) != target_ip && unique(a) && text.contains(&a.to_string())) {
             found.push(*ttl);
+        }
+        if target_on_screen && addrs.iter().any(|a| Some(*a) == target_ip) {
+            tfound.push(*ttl);
         }
     }
     let target = app.trace_info.get(app.trace_selected).map(|t| t.data.target_addr().to_string()).unwrap_or_default();
@@ -655,7 +685,7 @@ fn frame_event(app: &TuiApp, sh: &Shared, last_key: &str) -> Value {
         "show_chart":app.show_chart,"show_map":app.show_map,"frozen":app.frozen_start.is_some(),
         "privacy":app.tui_config.privacy_max_ttl.map_or(-1, i64::from),"hop_count":hop_count,"nflows":flow_ids.len(),"flow_ids":flow_ids,
         "fc":app.flow_counts.iter().map(|(id, _)| id.0).collect::<Vec<_>>(),"naddrs_sel":naddrs_sel,"max_addrs":app.tui_config.max_addrs.map_or(-1, i64::from),
-        "w":sh.w,"h":sh.h,"found":found,"resp":resp,"src_found":text.contains(&SRC.to_string()),"target_found":text.contains(&target),
+        "w":sh.w,"h":sh.h,"found":found,"tfound":tfound,"resp":resp,"src_found":text.contains(&SRC.to_string()),"target_found":text.contains(&target),
         "hops0":all_hops.len(),"addrs0":all_hops.iter().map(|(_, a)| a.len()).collect::<Vec<_>>(),
         "key":last_key,"amode":format!("{:?}", app.tui_config.address_mode)})
 }
